@@ -5,6 +5,7 @@ import (
 	"strconv"
 	"strings"
 
+	"github.com/robfig/soy/ast"
 	"github.com/robfig/soy/data"
 	"github.com/robfig/soy/errortypes"
 	"github.com/robfig/soy/soyhtml"
@@ -23,9 +24,57 @@ func init() {
 	})
 }
 
-var c19FailingPrints = []string{"{$n.zz}", "{$l[5].a}", "{1 % 0}", "{$u}", "{$n + 1}", "{length($n)}", "{$s|truncate:'x'}", "{$s|nosuchdirective}"}
+var c19FailingPrints = []string{"{$n.zz}", "{$l[5].a}", "{1 % 0}", "{$u}", "{$n + 1}", "{length($n)}", "{$s|truncate:'x'}", "{$s|nosuchdirective}",
+	// tags wrapped over several lines: the failing command BEGINS on the expected line
+	"{$n\n  .zz}", "{$u\n}", "{print\n  $n.zz\n}", "{$s\n  |nosuchdirective}", "{1\n % 0}"}
+
+// posNode is a bare position handed to Registry.LineNumber / ColNumber.
+type posNode struct{ ast.Pos }
+
+func (posNode) String() string { return "" }
+
+// directC19pos: the line/column arithmetic itself, exhaustively over every byte position of generated sources.
+func directC19pos(g *G, rep *Report) {
+	bg := newBundleGen(g.R.Fork(), bundleOpts{msgs: true, directives: true, calls: true})
+	nb := g.N(6, 60)
+	for i := 0; i < nb; i++ {
+		b := bg.bundle()
+		fs := b.sources()
+		// line breaks directly after tokens, CRLF and a missing final newline are the interesting shapes
+		fs[0].content = strings.Replace(fs[0].content, "{/template}\n", "{/template}", 1) + []string{"", "\n", "\r\n", "x"}[i%4]
+		reg, err := compileBundle(fs)
+		if err != nil || len(reg.Templates) == 0 {
+			continue
+		}
+		name := reg.Templates[0].Node.Name
+		src := ""
+		for _, f := range fs {
+			if strings.Contains(f.content, "{namespace "+reg.Templates[0].Namespace.Name) {
+				src = f.content
+			}
+		}
+		for pos := 0; pos <= len(src); pos++ {
+			wantLine := 1 + strings.Count(src[:pos], "\n")
+			wantCol := 1 + pos - strings.LastIndex(src[:pos], "\n")
+			var line, col int
+			if c := guarded(2e9, func() { line = reg.LineNumber(name, posNode{ast.Pos(pos)}); col = reg.ColNumber(name, posNode{ast.Pos(pos)}) }); c != "" {
+				line, col = -1, -1
+			}
+			rep.Evaluations++
+			if line != wantLine || col != wantCol {
+				if len(rep.Violations) < 10 {
+					rep.Violations = append(rep.Violations, Viol{Key: "c19-linecol:" + strconv.Itoa(pos), What: "Registry.LineNumber/ColNumber of byte position " + strconv.Itoa(pos) + " is not the line/column that position is on",
+						Req: req("c19pos", encSources(fs[:1])), Note: "position " + strconv.Itoa(pos) + " of " + strconv.Itoa(len(src)), Impl: strconv.Itoa(line) + ":" + strconv.Itoa(col), Want: strconv.Itoa(wantLine) + ":" + strconv.Itoa(wantCol)})
+				}
+			} else if pos > 0 && src[pos-1] == '\n' {
+				rep.DistinctNT++
+			}
+		}
+	}
+}
 
 func directC19render(g *G, rep *Report) {
+	directC19pos(g, rep)
 	n := g.N(300, 8000)
 	r := g.R.Fork()
 	for i := 0; i < n; i++ {
@@ -97,11 +146,16 @@ func directC19render(g *G, rep *Report) {
 			continue
 		}
 		got := fp.File() + ":" + strconv.Itoa(fp.Line())
-		if fp.File() != "dir/f0.soy" || fp.Line() != wantLine {
+		// a command that spans several lines: any of its lines is "the line of the command"
+		extent := 0
+		if depth == 0 {
+			extent = strings.Count(fail, "\n")
+		}
+		if fp.File() != "dir/f0.soy" || fp.Line() < wantLine || fp.Line() > wantLine+extent {
 			viol("c19r-position", "the render error points at "+got, got)
 			continue
 		}
-		if !strings.Contains(rerr.Error(), "ns0.t:"+strconv.Itoa(wantLine)) {
+		if !strings.Contains(rerr.Error(), "ns0.t:"+strconv.Itoa(fp.Line())) {
 			viol("c19r-text", "the line number in the message text differs from the error's fields", rerr.Error())
 			continue
 		}
